@@ -38,13 +38,22 @@ theorem fmtHex_length_ge (w v : Nat) : w ≤ (fmtHex w v).length := by
   simp only [List.length_append, List.length_replicate, List.length_map]
   omega
 
+theorem numHexCore_length_ge (size i : Nat) (neg : Bool) :
+    size ≤ (if (neg && size == 4) = true then fmtHex 4 (0x10000 - i) else fmtHex size (getNegative i neg)).length := by
+  split
+  · rename_i h4
+    simp only [Bool.and_eq_true, beq_iff_eq] at h4
+    have := fmtHex_length_ge 4 (0x10000 - i)
+    omega
+  · exact fmtHex_length_ge _ _
+
 theorem numHex_length_ge (i : Nat) (h : Option Nat) (neg : Bool) : numHexLen i h ≤ (numHex i h neg).length := by
   unfold numHex
   simp only [beq_self_eq_true, if_true]
   cases h with
   | none =>
     simp only [beq_self_eq_true, if_true]
-    refine Nat.le_trans ?_ (fmtHex_length_ge _ _)
+    refine Nat.le_trans ?_ (numHexCore_length_ge _ _ _)
     split <;> omega
   | some w =>
     by_cases hw : w = 0
@@ -52,7 +61,7 @@ theorem numHex_length_ge (i : Nat) (h : Option Nat) (neg : Bool) : numHexLen i h
       simp [numHexLen]
     · have : (w == 0) = false := by simpa using hw
       simp only [this, Bool.false_eq_true, if_false]
-      exact fmtHex_length_ge _ _
+      exact numHexCore_length_ge _ _ _
 
 /-- a number whose `hex_len` is even is emitted as `hex_len / 2` bytes -/
 theorem numeric_emits (i : Nat) (h : Option Nat) (m : Mode) (neg : Bool) (hev : numHexLen i h % 2 = 0) :
